@@ -25,9 +25,24 @@ open WireTypes
 
 let split_on = String.split_on_char
 
+(* instants can exceed an OCaml int (a u32::MAX TTL is 4.29e18 ns): decimal conversion
+   through the extracted arithmetic / Prelude.show_dec instead of Vutil.string_of_n *)
+let big_of_string (s : string) : BinNums.coq_N =
+  let ten = n_of_int 10 in
+  let acc = ref BinNums.N0 in
+  String.iter
+    (fun ch ->
+      if ch < '0' || ch > '9' then failwith "cache: bad number";
+      acc := BinNat.N.add (BinNat.N.mul !acc ten) (n_of_int (Char.code ch - 48)))
+    s;
+  !acc
+
+let string_of_big (n : BinNums.coq_N) : string =
+  String.concat "" (List.map (fun c -> String.make 1 (Char.chr (int_of_n c))) (Prelude.show_dec n))
+
 let op_of_tok (s : string) : op =
   match split_on '~' s with
-  | [ "T"; dt ] -> Advance (n_of_string dt)
+  | [ "T"; dt ] -> Advance (big_of_string dt)
   | [ "I"; r ] -> Insert (Vrr.rr_of_tok r)
   | [ "A"; rs ] -> InsertAll (Vrr.rrs_of_tok rs)
   | [ "G"; n; qt ] -> Get (Vrr.name_of_tok n, n_of_string qt)
@@ -36,7 +51,7 @@ let op_of_tok (s : string) : op =
   | _ -> failwith ("cache: bad op " ^ s)
 
 let show_queue (q : pqueue) : string =
-  let l = List.map (fun (k, p) -> (Vrr.name_tok k, string_of_n p)) q in
+  let l = List.map (fun (k, p) -> (Vrr.name_tok k, string_of_big p)) q in
   let l = List.sort (fun (a, _) (b, _) -> compare a b) l in
   String.concat "&" (List.map (fun (k, p) -> k ^ "=" ^ p) l)
 
@@ -47,7 +62,7 @@ let show_records (recs : (BinNums.coq_N * (rdata * BinNums.coq_N) list) list) : 
     (List.map
        (fun (t, ts) ->
          string_of_int t ^ "="
-         ^ String.concat "&" (List.map (fun (d, e) -> Vrr.tok_of_rdata d ^ "@" ^ string_of_n e) ts))
+         ^ String.concat "&" (List.map (fun (d, e) -> Vrr.tok_of_rdata d ^ "@" ^ string_of_big e) ts))
        l)
 
 let show_dump (c : cache) : string =
@@ -56,7 +71,7 @@ let show_dump (c : cache) : string =
       (fun (k, p) ->
         ( Vrr.name_tok k,
           String.concat "/"
-            [ string_of_n p.p_last_read; string_of_n p.p_next_expiry; string_of_n p.p_size; show_records p.p_records ] ))
+            [ string_of_big p.p_last_read; string_of_big p.p_next_expiry; string_of_n p.p_size; show_records p.p_records ] ))
       c.c_parts
   in
   let parts = List.sort (fun (a, _) (b, _) -> compare a b) parts in
@@ -92,7 +107,7 @@ let history (desired : string) (ops : string) : string =
           if not !first then Buffer.add_char buf '|';
           first := false;
           (match o with
-           | Advance _ -> Buffer.add_string buf ("T" ^ string_of_n now')
+           | Advance _ -> Buffer.add_string buf ("T" ^ string_of_big now')
            | _ ->
              Buffer.add_string buf (show_out x);
              Buffer.add_char buf '!';
